@@ -190,12 +190,17 @@ func ruleConstantExactness(c *Ctx, rule string) {
 				}
 				// or an `if cat == Int || cat == Uint { exact path; return }` before the lossy extraction
 				if ifs, isIf := st.(*ast.IfStmt); isIf {
-					onCat := false
+					// the guard must admit both integer categories: the function distinguishes signed from unsigned
+					// targets only where it picks Int64Val or Uint64Val
+					catsSeen := map[string]bool{}
 					for _, a := range orAtoms(ifs.Cond) {
 						if b, ok := a.(*ast.BinaryExpr); ok && b.Op == token.EQL && isReflectKind(info.TypeOf(b.X)) {
-							onCat = true
+							if o := usedObj(info, b.Y); o != nil {
+								catsSeen[o.Name()] = true
+							}
 						}
 					}
+					onCat := catsSeen["Int"] && catsSeen["Uint"]
 					exactPath := false
 					inspectCalls(ifs.Body, func(call *ast.CallExpr) {
 						if fn := calleeOf(info, call); fn != nil && (fn.Name() == "ToInt" || fn.Name() == "Int64Val" || fn.Name() == "Uint64Val") {
@@ -214,6 +219,41 @@ func ruleConstantExactness(c *Ctx, rule string) {
 	})
 	if n < 2 {
 		c.Ob(rule, "base/untyped.Lit.extractNumber", fd, false, "Int and Float arms not found: anchor missing")
+	}
+	// inside an arm of the switch on the target category, the 64-bit extractor has the arm's signedness: Int64Val of a
+	// negative constant is "exact" and would be accepted for an unsigned target, Uint64Val of one beyond int64 for a
+	// signed target
+	narm := 0
+	ast.Inspect(fd.Body, func(nd ast.Node) bool {
+		sw, ok := nd.(*ast.SwitchStmt)
+		if !ok || sw.Tag == nil || !isReflectKind(info.TypeOf(sw.Tag)) {
+			return true
+		}
+		for _, cc := range sw.Body.List {
+			cl := cc.(*ast.CaseClause)
+			if len(cl.List) != 1 {
+				continue
+			}
+			o := usedObj(info, cl.List[0])
+			if o == nil || (o.Name() != "Int" && o.Name() != "Uint") {
+				continue
+			}
+			want := map[string]string{"Int": "Int64Val", "Uint": "Uint64Val"}[o.Name()]
+			narm++
+			bad := ""
+			for _, st := range cl.Body {
+				inspectCalls(st, func(call *ast.CallExpr) {
+					if fn := calleeOf(info, call); fn != nil && fn.Pkg() != nil && fn.Pkg().Path() == "go/constant" && strings.HasSuffix(fn.Name(), "Val") && fn.Name() != want {
+						bad = fn.Name()
+					}
+				})
+			}
+			c.Ob(rule, "base/untyped.Lit.extractNumber/target:"+o.Name(), cl, bad == "", "an integer constant converted to a target of category "+o.Name()+" is extracted with constant."+want+" only"+sep(map[bool]string{true: "", false: "also calls constant." + bad}[bad == ""]))
+		}
+		return true
+	})
+	if narm < 2 {
+		c.Ob(rule, "base/untyped.Lit.extractNumber/target", fd, false, "arms for signed and unsigned targets not found: anchor missing")
 	}
 	// overflow check dominates integer results
 	ov := c.P.Func("base/untyped.ConvertLiteralCheckOverflow")
@@ -973,4 +1013,198 @@ func ruleFreshBigValues(c *Ctx, rule string) {
 	if n < 3 {
 		c.Ob(rule, "fast.makeMathBigFun/arms", fd, false, fmt.Sprintf("%d closures found, 3 expected: anchor missing", n))
 	}
+}
+
+// ruleRealPartNeedsZeroImag (K4): a complex value is narrowed to a real one only when its imaginary part is zero.
+// Go rejects float64(2+1i) and int(2+1i); a conversion helper that takes real(z) of a complex operand without a test
+// on imag(z) silently drops the imaginary part. Decided in base/reflect and base/untyped: every call of the builtin
+// real() on a reflect accessor result (v.Complex()) lies under a condition that mentions imag() of the same value, or
+// is unreachable because the enclosing category tests on one variable exclude each other.
+func ruleRealPartNeedsZeroImag(c *Ctx, rule string) {
+	n := 0
+	for _, short := range []string{"base/reflect", "base/untyped"} {
+		pk := c.P.Pkg(short)
+		if pk == nil {
+			continue
+		}
+		info := pk.TypesInfo
+		for _, fd := range c.P.FuncsOf(short) {
+			if fd.Body == nil {
+				continue
+			}
+			var stack []ast.Node
+			ast.Inspect(fd.Body, func(nd ast.Node) bool {
+				if nd == nil {
+					stack = stack[:len(stack)-1]
+					return true
+				}
+				stack = append(stack, nd)
+				call, ok := nd.(*ast.CallExpr)
+				if !ok || identOf(call.Fun) == nil || identOf(call.Fun).Name != "real" || len(call.Args) != 1 {
+					return true
+				}
+				if _, isB := info.Uses[identOf(call.Fun)].(*types.Builtin); !isB {
+					return true
+				}
+				acc, ok := unparen(call.Args[0]).(*ast.CallExpr)
+				if !ok {
+					return true
+				}
+				sel, ok := unparen(acc.Fun).(*ast.SelectorExpr)
+				if !ok || sel.Sel.Name != "Complex" || !isReflectValue(info.TypeOf(sel.X)) {
+					return true
+				}
+				n++
+				// enclosing conditions
+				guarded := false
+				cats := map[types.Object]map[string]bool{}
+				dead := false
+				for i := len(stack) - 2; i >= 0; i-- {
+					ifs, ok := stack[i].(*ast.IfStmt)
+					if !ok || !containsNode(ifs.Body, call) {
+						continue
+					}
+					ast.Inspect(ifs.Cond, func(m ast.Node) bool {
+						if cc, ok := m.(*ast.CallExpr); ok && identOf(cc.Fun) != nil && identOf(cc.Fun).Name == "imag" {
+							guarded = true
+						}
+						return true
+					})
+					for _, a := range andAtoms(ifs.Cond) {
+						cc, ok := unparen(a).(*ast.CallExpr)
+						if !ok {
+							continue
+						}
+						if fn := calleeOf(info, cc); fn == nil || fn.Name() != "IsCategory" || len(cc.Args) < 2 {
+							continue
+						}
+						o := usedObj(info, cc.Args[0])
+						if o == nil {
+							continue
+						}
+						set := map[string]bool{}
+						for _, k := range cc.Args[1:] {
+							if ko := usedObj(info, k); ko != nil {
+								set[kindCategory(ko.Name())] = true
+							}
+						}
+						if prev, ok := cats[o]; ok {
+							inter := false
+							for k := range set {
+								if prev[k] {
+									inter = true
+								}
+							}
+							if !inter {
+								dead = true
+							}
+						} else {
+							cats[o] = set
+						}
+					}
+				}
+				key := fmt.Sprintf("%s/real#%d", funcKey(pk, fd), n)
+				switch {
+				case dead:
+					c.ObTrivial(rule, key, call, true, "unreachable: the enclosing category tests on one variable exclude each other")
+				default:
+					c.Ob(rule, key, call, guarded, "the real part of a complex operand is taken only under a test on its imaginary part (Go rejects the conversion of a constant with a non-zero imaginary part to a real type)")
+				}
+				return true
+			})
+		}
+	}
+	if n == 0 {
+		c.ObTrivial(rule, "base/reflect", nil, true, "no narrowing of a complex value to its real part in the conversion helpers")
+	}
+}
+
+// ruleUnaryKeepsKind (K5): a unary operator applied to an untyped constant yields an untyped constant of the same
+// kind ('-'a” is an untyped rune, not an untyped int). go/constant has no rune kind, so the kind cannot be
+// recovered from the result: the Kind handed to exprUntypedLit in UnaryExprUntyped must be the Kind field of the
+// operand's literal.
+func ruleUnaryKeepsKind(c *Ctx, rule string) {
+	pk := c.P.Pkg("fast")
+	info := pk.TypesInfo
+	fd := c.P.Func("fast.Comp.UnaryExprUntyped")
+	if fd == nil || fd.Body == nil {
+		c.Ob(rule, "fast.Comp.UnaryExprUntyped", nil, false, "anchor function not found")
+		return
+	}
+	var params []types.Object
+	for _, f := range fd.Type.Params.List {
+		for _, nm := range f.Names {
+			params = append(params, info.Defs[nm])
+		}
+	}
+	operand := params[len(params)-1]
+	di := buildDefIndex(info, fd)
+	n := 0
+	inspectCalls(fd.Body, func(call *ast.CallExpr) {
+		if fn := calleeOf(info, call); fn == nil || fn.Name() != "exprUntypedLit" || len(call.Args) != 2 {
+			return
+		}
+		n++
+		good := false
+		if sel, ok := unparen(call.Args[0]).(*ast.SelectorExpr); ok && sel.Sel.Name == "Kind" {
+			if s := info.Selections[sel]; s != nil && s.Kind() == types.FieldVal && di.rootOf(info, sel.X, 0) == operand {
+				good = true
+			}
+		}
+		c.Ob(rule, fmt.Sprintf("fast.Comp.UnaryExprUntyped/result#%d", n), call, good, "the untyped kind of the result is the Kind field of the operand (argument "+exprString(call.Args[0])+")")
+	})
+	if n == 0 {
+		c.Ob(rule, "fast.Comp.UnaryExprUntyped", fd, false, "no exprUntypedLit call: anchor missing")
+	}
+}
+
+// ruleConstRepetitionPairing (K6): in a constant group, a spec without expressions repeats the type and the
+// expression list of the last spec that had expressions — both, together: `const (a uint8 = iota; b; c = iota * 100;
+// d)` makes d an untyped repetition of `iota * 100`, not a uint8. Decided in GenDecl: the remembered type and the
+// remembered expression list are assigned from the same spec in the same block, under the same condition.
+func ruleConstRepetitionPairing(c *Ctx, rule string) {
+	pk := c.P.Pkg("fast")
+	info := pk.TypesInfo
+	fd := c.P.Func("fast.Comp.GenDecl")
+	if fd == nil || fd.Body == nil {
+		c.Ob(rule, "fast.Comp.GenDecl", nil, false, "anchor function not found")
+		return
+	}
+	type site struct {
+		blk  *ast.BlockStmt
+		spec types.Object
+		as   *ast.AssignStmt
+	}
+	var tys, vals []site
+	var blocks []*ast.BlockStmt
+	ast.Inspect(fd.Body, func(n ast.Node) bool {
+		if b, ok := n.(*ast.BlockStmt); ok {
+			blocks = append(blocks, b)
+		}
+		return true
+	})
+	for _, b := range blocks {
+		for _, st := range b.List {
+			as, ok := st.(*ast.AssignStmt)
+			if !ok || len(as.Lhs) != 1 || len(as.Rhs) != 1 || as.Tok != token.ASSIGN {
+				continue
+			}
+			sel, ok := unparen(as.Rhs[0]).(*ast.SelectorExpr)
+			if !ok || !isNamedType(typeOrInvalid(info, sel.X), "go/ast", "ValueSpec") {
+				continue
+			}
+			switch sel.Sel.Name {
+			case "Type":
+				tys = append(tys, site{b, usedObj(info, sel.X), as})
+			case "Values":
+				vals = append(vals, site{b, usedObj(info, sel.X), as})
+			}
+		}
+	}
+	good := len(tys) == 1 && len(vals) == 1 && tys[0].blk == vals[0].blk && tys[0].spec == vals[0].spec
+	var at ast.Node = fd
+	if len(vals) > 0 {
+		at = vals[0].as
+	}
+	c.Ob(rule, "fast.Comp.GenDecl/const-repetition", at, good, fmt.Sprintf("the type and the expression list repeated by later specs of a constant group are remembered together, from the same spec and under the same condition (%d type / %d expression-list assignments found)", len(tys), len(vals)))
 }
